@@ -54,13 +54,14 @@ RULE = ("a case is one (history of public calls, embedding) re-executed on the r
         "produced or modified an object; distinct by (history, embedding) resp. (program id, call number)")
 
 GEO = W.GEO
-ALGEBRA = ("neg", "pos", "abs", "add", "mul", "mulnum", "comp", "lshift", "sub", "dot", "cross", "norm", "orientation")
+ALGEBRA = ("neg", "pos", "abs", "add", "mul", "mulnum", "comp", "lshift", "sub", "dot", "cross", "norm", "orientation", "addnum", "pow2", "angle")
 SEL = ("selplane", "selrange", "getsub", "getregion", "pad", "resample")
 PERSIST = ("h5", "ovf", "vtk", "xarray")
+VALID_FREE = ("integrate", "mean", "integratecum")   # results whose validity no property constrains (the model follows the library: all valid)
 ACTION_OF = {"translate": "Translate", "scale": "Scale", "mkfield": "MkField", "neg": "Neg", "pos": "Pos", "abs": "Abs", "add": "Add",
              "mul": "Mul", "sub": "Sub", "dot": "Dot", "cross": "Cross", "norm": "Norm", "orientation": "Orientation", "integrate": "Integrate",
              "fromfield": "FromField", "setsub": "SetSub", "q_meshclose": "QMeshClose", "q_fieldclose": "QFieldClose",
-             "q_regionin": "QRegionIn", "q_aligned": "QAligned", "q_eq": "QEq", "q_mean": "QMean", "q_call": "QCall", "mean": "Mean", "setvdims": "SetVdims", "mulnum": "MulNum", "comp": "Comp", "lshift": "LShift", "diff": "Diff", "mutatevalid": "MutateValid",
+             "q_regionin": "QRegionIn", "q_aligned": "QAligned", "q_eq": "QEq", "q_mean": "QMean", "q_call": "QCall", "mean": "Mean", "setvdims": "SetVdims", "addnum": "AddNum", "pow2": "Pow2", "angle": "Angle", "integratecum": "IntegrateCum", "mulnum": "MulNum", "comp": "Comp", "lshift": "LShift", "diff": "Diff", "mutatevalid": "MutateValid",
              "updateconst": "UpdateConst", "setarray": "SetArray", "writearray": "WriteArray", "selplane": "SelPlane", "selrange": "SelRange", "getsub": "GetSub",
              "getregion": "GetRegion", "pad": "Pad", "resample": "Resample", "h5": "H5", "ovf": "Ovf", "vtk": "Vtk", "xarray": "Xarray"}
 ALL_ACTIONS = sorted(set(ACTION_OF.values()) | {"MeshRotate90", "FieldRotate90", "SetValidArray", "SetValidNorm", "SetValidNone"})
@@ -107,7 +108,7 @@ def clause_of(aspect, c, is_result):
         return "DF_QueryPure"
     if op == "setsub":
         return "DF_SetSub"
-    if op in ("integrate", "mean") and is_result:
+    if op in ("integrate", "mean", "integratecum") and is_result:
         return "DF_Integrate"
     if op == "setvdims":
         return "DF_Relabel"
@@ -148,6 +149,10 @@ def compare_state(part, w, st, c, hist, emb, init_name):
     diffs = W.diff_heaps(want, wroots, got, groots)
     if diffs and diffs[0][0] == "sharing-less":
         part.note("R_less_sharing_than_the_model:" + opname(c))   # not a violation; the history is not continued
+        return False
+    if c["op"] in VALID_FREE and diffs and all(a == "valid" and o == res for a, o, _ in diffs):
+        # no property says which cells of an integral / a mean are valid: counted, the history is not continued
+        part.note("R_validity_of_an_integral_differs_from_the_model:" + opname(c))
         return False
     for aspect, o, msg in diffs[:4]:
         is_result = (o == res) or (o and res and want.get(res, {}).get("k") == "field" and o in (want[res]["mesh"], want[want[res]["mesh"]]["region"]))
@@ -465,7 +470,7 @@ for _op in SEL:
     FAMILY[_op] = "sel"
 FAMILY.update({"diff": "diff", "setvalid": "valid", "mutatevalid": "valid", "updateconst": "update", "setarray": "update",
                "mkfield": "update", "fromfield": "update", "writearray": "update", "integrate": "integrate", "setsub": "setsub", "q_aligned": "q_aligned", "q_meshclose": "query", "q_fieldclose": "query",
-               "q_regionin": "query", "q_eq": "query", "q_mean": "integrate", "mean": "integrate", "q_call": "update", "setvdims": "labels", "h5": "h5", "ovf": "ovf", "vtk": "vtk", "xarray": "xarray"})
+               "q_regionin": "query", "q_eq": "query", "q_mean": "integrate", "mean": "integrate", "integratecum": "integrate", "q_call": "update", "setvdims": "labels", "h5": "h5", "ovf": "ovf", "vtk": "vtk", "xarray": "xarray"})
 FAMILY_OWNER = {"geo": {"C13"}, "algebra": {"C03"}, "sel": {"C07"}, "diff": {"C08"}, "valid": {"C08"}, "update": {"C02"}, "integrate": {"C06"}, "setsub": {"C14"}, "q_aligned": {"C14"}, "query": {"DF"}, "labels": {"DF"},   # allclose / `in` are beyond the twenty texts
                 "h5": {"C10"}, "ovf": {"C09"}, "vtk": {"C16"}, "xarray": {"C17"}}
 CLAUSE_OWNER = {
